@@ -10,6 +10,11 @@ const (
 )
 
 var registry = []*HarnessSpec{
+	{Prop: "C08", Name: "zzH08b", Pkg: pkgCorerad, Tier: "quick", Bounds: "signalTask.Run for SIGINT / SIGTERM / SIGHUP with a cancel function that reads the recorded decision"},
+	{Prop: "C20", Name: "zzH08b", Pkg: pkgCorerad, Tier: "quick", Bounds: "signalTask.Run for SIGINT / SIGTERM / SIGHUP with a cancel function that reads the recorded decision"},
+	{Prop: "C20", Name: "zzH20a", Pkg: pkgCorerad, Tier: "quick", Params: map[string]int{"interfaces": 3}, Bounds: "3 interfaces, each advertise / monitor / neither; debug address set or empty"},
+	{Prop: "C20", Name: "zzH20b", Pkg: pkgCorerad, Tier: "quick", Unwind: 64, Bounds: "0..40 or unbounded *net.OpError results followed by ErrServerClosed / another error / cancellation"},
+	{Prop: "C20", Name: "zzH20c", Pkg: pkgCorerad, Tier: "quick", Explore: true, NoNative: true, Sched: 4000, Params: map[string]int{"tasks": 2, "tasks@thorough": 3}, Bounds: "2 (3) stub tasks each with one of 5 behaviours; SIGINT / SIGTERM / SIGHUP / no signal delivered once everything is blocked; schedules explored up to the budget"},
 	{Prop: "C07", Name: "zzH09b", Pkg: pkgCorerad, Tier: "quick", NoNative: true, Bounds: "Listen + handle over a scripted socket: a valid RS from any IPv6 source or ::, with or without the zone the socket layer attaches"},
 	{Prop: "C07", Name: "zzH06", Pkg: pkgCorerad, Tier: "quick", MonoTime: true, NoNative: true, Params: map[string]int{"events": 2, "events@thorough": 3}, Bounds: "scheduler: 2 (3) requests (all-nodes or arbitrary unicast sources, possibly repeated) at arbitrary instants: one task per solicitation, delay in [0,500ms), each closure sends to its own source"},
 	{Prop: "C09", Name: "zzH09b", Pkg: pkgCorerad, Tier: "quick", NoNative: true, Bounds: "Listen with its real goroutines over a scripted socket: one invalid message (any hop limit != 255) then one valid RS from any IPv6 source or ::, with or without zone; then cancellation"},
@@ -21,6 +26,7 @@ var registry = []*HarnessSpec{
 	{Prop: "C03", Name: "zzH03route", Pkg: pkgConfig, Tier: "quick", Bounds: "one static route stanza: any accepted prefix, lifetime of every accepted shape, preference"},
 	{Prop: "C03", Name: "zzH03dns", Pkg: pkgConfig, Tier: "quick", Bounds: "one rdnss stanza (one symbolic server) or one dnssl stanza (one concrete name), lifetime of every accepted shape"},
 	{Prop: "C03", Name: "zzH03misc", Pkg: pkgConfig, Tier: "quick", Bounds: "mtu any accepted value; source LLA absent or a symbolic Ethernet address; pref64 absent / default / any parsable prefix string"},
+	{Prop: "C01", Name: "zzH14b", Pkg: pkgConfig, Tier: "quick", Params: map[string]int{"static": 2, "repeats": 3}, Bounds: "idempotence / purity for an rdnss stanza (:: plus 2 static servers) parsed by the real parser; RA built 3 times"},
 	{Prop: "C14", Name: "zzH14b", Pkg: pkgConfig, Tier: "quick", Params: map[string]int{"static": 2, "repeats": 3}, Bounds: "stanza with :: at any position among 2 symbolic static servers, parsed by the real parseRDNSS; RA built 3 times"},
 	{Prop: "C02", Name: "zzH02interval", Pkg: pkgConfig, Tier: "quick", Bounds: "max_interval / min_interval of every shape (absent, auto, infinite, unparsable, any int64 ns value)"},
 	{Prop: "C02", Name: "zzH02header", Pkg: pkgConfig, Tier: "quick", Bounds: "one of default_lifetime / reachable_time / retransmit_timer / hop_limit / mtu / preference of every shape, max_interval any accepted value"},
@@ -38,6 +44,9 @@ var registry = []*HarnessSpec{
 	{Prop: "C11", Name: "zzH11", Pkg: pkgSystem, Tier: "quick", Unwind: 60, Params: map[string]int{"failures": 1, "rounds": 2, "failures@thorough": 2, "rounds@thorough": 3}, Bounds: "both modes; up to `rounds` task rounds with every task outcome class; at most `failures` failing environment calls placed anywhere (lookup, check, dialNDP x3 classes, autoconf get, autoconf set/restore x3 classes)"},
 	{Prop: "C07", Name: "zzH07send", Pkg: pkgCorerad, Tier: "quick", Bounds: "one sendWorker call: destination all-nodes / any IPv6 address with or without zone, unicast_only, forwarding, header fields symbolic; write succeeds or fails"},
 	{Prop: "C07", Name: "zzH07a", Pkg: pkgCorerad, Tier: "quick", Bounds: "one handle call: RS (with/without source LLA) from any IPv6 / IPv4 / unspecified source; NS; NA"},
+	{Prop: "C04", Name: "zzH04a", Pkg: pkgConfig, Tier: "quick", Bounds: "Interface.RouterAdvertisement with all header fields, preference and two static plugins symbolic, forwarding on vs off"},
+	{Prop: "C04", Name: "zzH07send", Pkg: pkgCorerad, Tier: "quick", Bounds: "sendWorker: forwarding read once per RA; lifetime follows it"},
+	{Prop: "C04", Name: "zzH08a", Pkg: pkgCorerad, Tier: "quick", Bounds: "final RA path"},
 	{Prop: "C04", Name: "zzH04seq", Pkg: pkgCorerad, Tier: "quick", Bounds: "two consecutive sends with independently symbolic forwarding reads"},
 	{Prop: "C08", Name: "zzH08a", Pkg: pkgCorerad, Tier: "quick", Bounds: "one shutdown call: terminate/reload, unicast_only, forwarding, write failure symbolic"},
 	{Prop: "C09", Name: "zzH09a", Pkg: pkgCorerad, Tier: "quick", Params: map[string]int{"k": 8, "k@thorough": 12}, Bounds: "0..k-1 consecutive messages with any hop limit != 255 followed by a valid one (k=8, thorough 12)"},
@@ -52,8 +61,8 @@ var registry = []*HarnessSpec{
 	{Prop: "C12", Name: "zzH12dnssl", Pkg: pkgCorerad, Tier: "quick", Params: map[string]int{"n": 2, "n@thorough": 2}, Bounds: "0..2 DNSSL options per side with 1..2 names from three tokens"},
 	{Prop: "C14", Name: "zzH14a", Pkg: pkgPlugin, Tier: "quick", Params: map[string]int{"n": 3, "n@thorough": 4}, Bounds: "address list of n=3 (thorough 4) fully symbolic entries (either family, any length, six flags)"},
 	{Prop: "C15", Name: "zzH15", Pkg: pkgPlugin, Tier: "quick", Params: map[string]int{"n": 2, "n@thorough": 3}, Bounds: "route list of n=2 (thorough 3) symbolic masked prefixes of either family, any length"},
-	{Prop: "C16", Name: "zzH16", Pkg: pkgPlugin, Tier: "quick", MonoTime: true, Params: map[string]int{"mono": 1}, Bounds: "epoch and three non-decreasing monotonic clock readings (what time.Now returns; possibly before the epoch), lifetimes any ns value the parser accepts below 2^32 s"},
-	{Prop: "C16", Name: "zzH16wall", Pkg: pkgPlugin, Tier: "thorough", Params: map[string]int{"mono": 0}, Bounds: "same with wall-clock-only readings (years 1970..2242)"},
+	{Prop: "C16", Name: "zzH16", Pkg: pkgPlugin, Tier: "quick", MonoTime: true, Params: map[string]int{"mono": 1, "moving": 1}, Bounds: "epoch and three non-decreasing monotonic clock readings (what time.Now returns; possibly before the epoch), lifetimes any ns value the parser accepts below 2^32 s"},
+	{Prop: "C16", Name: "zzH16wall", Pkg: pkgPlugin, Tier: "thorough", Params: map[string]int{"mono": 0, "moving": 0}, Bounds: "same with wall-clock-only readings (years 1970..2242)"},
 	{Prop: "C01", Name: "zzH01b", Pkg: pkgPlugin, Tier: "quick", Bounds: "max_interval any ns value in [4s,1800s]"},
 	{Prop: "C13", Name: "zzH13", Pkg: pkgPlugin, Tier: "quick", Params: map[string]int{"n": 3, "n@thorough": 4}, Bounds: "address list of n=2 (thorough 3) fully symbolic entries: either family, any length, all six flags; stanza flags/lifetimes symbolic; listing failure"},
 	{Prop: "C05", Name: "zzH05a", Pkg: pkgCorerad, Extra: []string{pkgConfig}, Tier: "quick", Bounds: "i any int>=0; (min,max) any ns-granular pair with 4s<=max<=1800s, 3s<=min<=max; Int63n any value in [0,n)"},
